@@ -188,6 +188,20 @@ func (r *Result) Finish() {
 	os.Exit(0)
 }
 
+// Current records what the worker is about to execute in a side file next to the result file. A
+// worker that is killed by an unrecovered panic in a background goroutine of the system under test
+// cannot report anything itself; the driver reads this file to name the input that was running.
+func Current(x any) {
+	if OutFile == "" {
+		return
+	}
+	b, err := json.Marshal(x)
+	if err != nil {
+		return
+	}
+	_ = os.WriteFile(OutFile+".cur", b, 0o644)
+}
+
 // LoadReplay reads the replay payload of a replay file written by the driver.
 func LoadReplay(into any) error {
 	b, err := os.ReadFile(ReplayF)
